@@ -13,7 +13,7 @@ from .builder_impl import parse_record
 PROP = "C03"
 KEYS = ["out", "stmts", "pos", "spos", "rel", "feed", "power", "tnum", "bed", "hot", "ch"]
 W = dict(move=30, moveabs=10, setaxis=6, home=3, probe=8, dist=5, enter=2, exit=2, feed=5, power=4, toolon=4, tooloff=3,
-         poweron=3, poweroff=2, toolchange=4, halt=6, temp=7, misc=2, bounds=12)
+         poweron=3, poweroff=2, toolchange=4, halt=6, temp=7, misc=2, bounds=12, hook=3)
 TEMP = {"M140": "bed-temperature", "M190": "bed-temperature", "M104": "hotend-temperature", "M109": "hotend-temperature",
         "M141": "chamber-temperature", "M191": "chamber-temperature"}
 MOTION = {"G0", "G1", "G38.2", "G38.3", "G38.4", "G38.5"}
